@@ -393,7 +393,7 @@ fn main() {
 
     // ---- medium-scale deterministic differential runs (not exhaustive; catch scale-dependent defects) ----
     {
-        let (ms, mv, mj) = checks::medium::run_all(&["qf", "bloom"], run.thorough(), checks::par::n_threads());
+        let (ms, mv, mj) = checks::medium::run_all(&["qf", "bloom", "cuckoo"], run.thorough(), checks::par::n_threads());
         run.ev.set("medium_scale_runs", json!({"configurations": mj, "operations": ms.ops, "reference_comparisons": ms.comparisons, "note": "long structured histories on tables of 64..4096 slots against an exact reference; complements the exhaustive tiny-scope search, not part of the exhaustive claim"}));
         for v in mv {
             run.violation(v);
